@@ -408,8 +408,61 @@ fn set_servings_sequence(ctx: &mut Ctx, ps: &mut Parsers, case: &Case, list: &[u
     }
 }
 
+/// Parsing with a caller's metadata validator that switches the standard checks off for ONE key (or drops one key): the
+/// servings declared under another key are still the base of `scale_to_servings`, wherever that key is written.
+fn validator_cases(ctx: &mut Ctx) {
+    use cooklang::analysis::{CheckResult, ParseOptions};
+    let conv = cooklang::Converter::bundled();
+    let parser = cooklang::CooklangParser::new(Extensions::all(), conv.clone());
+    for (front, other, servings_key, declared) in [
+        ("time: about an hour and a half\nservings: 2", "time", "servings", 2u32),
+        ("title: Bread\nlocale: english\nserves: 4|8", "locale", "serves", 4),
+        ("servings: 3\ntime: soon", "time", "servings", 3),
+        ("tags: 7\nauthor: <x>\nyield: 5", "tags", "yield", 5),
+    ] {
+        for syntax in 0..2 {
+            let input = if syntax == 0 { format!("---\n{front}\n---\nMix @flour{{100%g}}.\n") } else { format!("{}\nMix @flour{{100%g}}.\n", front.lines().map(|l| format!(">> {l}")).collect::<Vec<_>>().join("\n")) };
+            for action in 0..2 {
+                let case = Case::new("validator", input.as_str(), Extensions::all().bits(), "bundled").with(json!({"other_key": other, "action": action, "servings_key": servings_key}));
+                ctx.begin(&case);
+                let opts = ParseOptions {
+                    recipe_ref_check: None,
+                    metadata_validator: Some(Box::new(move |k, _v, o| {
+                        if k.as_str() == Some(other) {
+                            if action == 0 { o.run_std_checks(false) } else { o.include(false) }
+                        }
+                        CheckResult::Ok
+                    })),
+                };
+                let res = crate::core::guarded(|| {
+                    let rec = parser.parse_with_options(&input, opts).into_output()?;
+                    let got = rec.servings().map(|s| s.to_vec());
+                    let scaled = rec.scale_to_servings(declared * 2, &conv);
+                    Some((got, scaled.ingredients[0].quantity.clone()))
+                });
+                match res {
+                    Err(p) => ctx.panic_violation(&case, "parse_with_options+scale_to_servings", p),
+                    Ok(None) => ctx.count("validator_case_without_output"),
+                    Ok(Some((got, q))) => {
+                        let amount = q.as_ref().and_then(|q| amount_by_table(&conv, q)).map(|a| a.0);
+                        if got.as_ref().and_then(|g| g.first().copied()) != Some(declared) || !matches!(amount, Some(a) if close_table(a, 200.0)) {
+                            ctx.violation(&case, "servings", "servings_lost_when_a_validator_touches_another_key", format!("a validator {} `{other}`: the recipe reports servings {got:?} (declared under `{servings_key}`: {declared}); scaled to {} servings the 100 g are {:?}", if action == 0 { "switches the checks off for" } else { "drops" }, declared * 2, q.map(|q| q.to_string())));
+                        } else {
+                            ctx.count("validator_cases_ok");
+                            ctx.nontrivial(&case);
+                        }
+                    }
+                }
+            }
+        }
+    }
+}
+
 pub fn run(ctx: &mut Ctx) {
     let mut ps = Parsers::new();
+    if ctx.shard == 0 {
+        validator_cases(ctx);
+    }
     if let Some(c) = crate::mon::c09::layered_converter() {
         ps.register("layered", c);
     } else {
@@ -425,6 +478,8 @@ pub fn run(ctx: &mut Ctx) {
             // every SI prefix of every expanded unit, by symbol and by name
             ("Knead @flour{25%dag} with @water{1%dal}, @a{3%dl}, @b{2%dg}, @c{5%dm}, @d{4%hl}, @e{7%cg}, @f{2%hg}, @g{3%dam}, @h{1%kl} and @i{9%cm}.", Extensions::all().bits(), J::Null),
             ("@a{2%decagrams} @b{3%deciliters} @c{1%hectogram} @d{4%centiliters} @e{5%kilometers} @f{6%milligrams} @g{1%decaliter} @h{2%decimeters}", Extensions::all().bits(), J::Null),
+            // units written with the prime symbols
+            ("Cut the @dough{3%\"} thick and the @pastry{1-2%'} long, in a #tin{1}.", Extensions::all().bits(), J::Null),
             // ranges that start at zero, with units of every system and without
             ("Add @flour{0-2%kg}, @salt{0-1%tsp}, @milk{0-0.5%l}, @x{0-0%g}, @sugar{0-3%oz}, @y{0-2} and @z{0-4%pinch} for ~{0-10%min}.", Extensions::all().bits(), J::Null),
             (">> servings: 4\n>> title: Soup\n>> description: warm\n\nAdd @flour{0-2%kg} and @water{1%l}.\n", Extensions::all().bits(), json!([4])),
